@@ -3,6 +3,7 @@
 -/
 import Gmars.Model.Load
 import Gmars.Spec.Legal88
+import Gmars.Proofs.LoadOK
 
 namespace Gmars.Props.C10
 open Gmars
@@ -40,5 +41,33 @@ theorem validate88_is_table (op : Op) (am bm : Mode) (md : Modifier)
     getOpModeAndValidate88 op am bm = some md ↔ Spec.implied88 op am bm = some md := by
   cases op <;> simp at ho <;> cases am <;> simp [Spec.mode88] at ha <;> cases bm <;> simp [Spec.mode88] at hb <;>
     cases md <;> decide
+
+/-- `load_no_panic`: for EVERY text, reading a load file terminates (the model is a structural
+    recursion over the lines) and never panics, under any configuration with a non-zero core size -/
+theorem load_no_panic {cfg : Config} (h0 : cfg.coreSize ≠ 0) (text : GoStr.Str) :
+    ∃ r, parseLoadFile cfg text = .ok r :=
+  Gmars.load_no_panic h0 text
+
+/-- `load_ok_wf`: whatever the text, an accepted warrior has its entry point inside its code (or
+    zero when empty), all fields below the core size, and under ICWS'88 only legal '88
+    instructions with the implied modifier -/
+theorem load_ok_wf {cfg : Config} {text : GoStr.Str} {w : WarriorData}
+    (h0 : cfg.coreSize ≠ 0) (h63 : cfg.coreSize.toNat < 2 ^ 63)
+    (h : parseLoadFile cfg text = .ok (some w)) :
+    ((w.code.size = 0 ∧ w.start = 0) ∨ (0 ≤ w.start ∧ w.start < w.code.size)) ∧
+    (∀ i ∈ w.code.toList, i.a < cfg.coreSize ∧ i.b < cfg.coreSize) ∧
+    (cfg.mode = .icws88 → ∀ i ∈ w.code.toList, Spec.Legal88 i = true) :=
+  Gmars.load_ok_wf h0 h63 h
+
+/-- `no_silent_skip`: an accepted read produced exactly one instruction for every non-blank,
+    non-comment line before the end marker that is not an ORG/END directive — nothing is skipped -/
+theorem no_silent_skip {cfg : Config} {text : GoStr.Str} {w : WarriorData}
+    (h : parseLoadFile cfg text = .ok (some w)) :
+    w.code.size = (Spec.significantInstrLines text).1 :=
+  Gmars.no_silent_skip h
+
+-- non-vacuity: a two-line '88 file is accepted, the comma-only line of F22 is refused
+example : (parseLoadFile { mode := .icws88, coreSize := 8000 } "MOV $ 0, $ 1\nEND 0\n".toList).toOption.join.isSome = true := by decide
+example : (parseLoadFile { mode := .icws94, coreSize := 8000 } "MOV.I $ 0, $ 1\n,\n".toList).toOption = some none := by decide
 
 end Gmars.Props.C10
